@@ -91,14 +91,31 @@ def explicit_params(call: ast.Call, callee: Func, skip_first):
     return out
 
 
-def reachable(f: Func, follow=lambda callee: True, limit=400, skip_edges=()):
+def conditional_call_ids(f: Func):
+    """ids of Call nodes nested under an `if` whose test inspects an option (kwargs / isinstance of an argument)"""
+    out = set()
+    for n in ast.walk(f.node):
+        if isinstance(n, ast.If):
+            t = ast.unparse(n.test)
+            if "kwargs" in t or "kw." in t or "isinstance(" in t:
+                for b in n.body:
+                    for c in ast.walk(b):
+                        if isinstance(c, ast.Call):
+                            out.add(id(c))
+    return out
+
+
+def reachable(f: Func, follow=lambda callee: True, limit=400, skip_edges=(), skip_conditional_to=()):
     """transitive callees of f (including f): dict ref -> (Func, path); skip_edges = {(caller qname, callee qname)}"""
     out = {f.ref: (f, [f.qname])}
     work = [f]
     while work and len(out) < limit:
         cur = work.pop()
+        cond_ids = conditional_call_ids(cur) if skip_conditional_to else ()
         for node, callee, _ in call_sites(cur):
             if (cur.qname, callee.qname) in skip_edges:
+                continue
+            if callee.qname in skip_conditional_to and id(node) in cond_ids:
                 continue
             if callee.ref not in out and follow(callee):
                 out[callee.ref] = (callee, out[cur.ref][1] + [callee.qname])
